@@ -22,14 +22,14 @@ from vf.specs import ALL_FAMILIES, build, grid, loggrid, sgrid, vec
 ID = "C18"
 LEVEL = "exploration"
 RULE = (
-    "(1) Hypothesis draws traces with the generators of C03/C04/C06 (fresh runs with tiny line-search budgets, gradient scaler, restart chains with kept/reduced maxcor; callable gradient): for every callback "
+    "(1) Hypothesis draws traces with the generators of C03/C04/C06 (fresh runs with tiny line-search budgets, gradient scaler, restart chains with kept/reduced maxcor; callable gradient) and objective redefinitions through an update function (C13's switch generator): for every callback "
     "state and result the pairs must number <= maxcor, be bit-exact differences of visited iterates and of the gradients the harness returned there (times the scaling factor), in chronological order, with "
     "s.y>0; pairs inherited from a checkpoint must equal the checkpoint's newest pairs up to the reconstruction rounding of C06(a). The dense inverse-BFGS matrix built by the harness must be symmetric "
     "positive definite and equal to the operator. (2) arbitrary positive-curvature pair sets (size 1..12, dimension 1..30, y = A s + perturbation, and non-quadratic sets) for extract_hess_inv_diag. "
     "non-trivial = the run had a rejected update (merged pair), a memory overflow, a memory reset or a restart; for (2): >=2 pairs in dimension >=2; distinct = distinct spec"
 )
 ASSUMPTIONS = [
-    "objective redefinition traces are covered by the same oracle inside C13 (rewritten gradients)",
+    "objective-redefinition traces use C13's switch generator; gradients 'the user returned' are then the rewritten ones",
     "SPD-ness / operator equality judged numerically only while cond(H) <= 1e12 (gated cases counted); the exact clauses (count, bit-exact differences, s.y>0) always",
 ]
 EPS = 2.220446049250313e-16
@@ -169,6 +169,63 @@ def check_trace(spec, stats=None):
                    sample={"family": rspec["problem"]["obj"]["family"], "cfg": rspec["cfg"], "merged_pair": merged, "overflow": overflow, "memory_reset": reset, "restarts": nrest})
 
 
+# ------------------------------------------------------------------ (1b) objective redefinitions
+def check_redefinition(spec, stats=None):
+    """Traces in which an update function switches the objective: from the switch on, the pairs of
+    every state must be exact differences of the *rewritten* gradients with s.y > 0 and the operator SPD."""
+    from collections import deque
+
+    from vf.props.c13 import make_objB
+
+    rspec = spec["run"]
+    prob = build(rspec["problem"])
+    cfg = dict(rspec["cfg"])
+    sw = spec["switch"]
+    j = sw["at"]
+    objB = make_objB(prob, sw)
+    info = {}
+
+    def upd(i, x, f0, f0_old, grad, X, G, tr):
+        if i == j:
+            tr.holder["obj"] = objB
+            info["ncb"] = len(tr.cb)
+            info["npairs_before"] = max(len(X) - 1, 0)
+            f0n = float(objB.f(x))
+            return f0n, f0n + 1.0 + abs(f0n), np.array(objB.g(x)), deque(np.array(objB.g(xi)) for xi in X)
+        return f0, f0_old, grad, G
+
+    tr = run_min(prob, cfg, callback="passive", update_fun_def=upd)
+    if tr.exc is not None:
+        raise tr.exc
+    if "ncb" not in info:
+        if stats is not None:
+            stats.case(spec, False, ["kind=redefinition", "switch-not-reached"])
+        return
+    x0c = np.clip(prob.x0, prob.lb, prob.ub)
+    pts = [x0c] + [c["xk"] for c in tr.cb]
+    if not np.array_equal(pts[-1], tr.res["x"]):
+        pts.append(tr.res["x"])
+    gB = [np.array(objB.g(p)) for p in pts]
+    if not all(np.all(np.isfinite(p)) for p in pts) or not all(np.all(np.isfinite(g)) for g in gB):
+        raise Discard("diverged")
+    icb = info["ncb"]
+    n_after = None
+    for ci, c in enumerate(tr.cb):
+        if ci >= icb:
+            check_genuine_pairs(pts, gB, c["snap"], "redefined", cfg["maxcor"], eps_sy=None, what=f"callback state nit={c['snap']['nit']} after the redefinition")
+            check_operator(c["snap"], c["live"].hess_inv, stats, what="state after redefinition")
+            if ci == icb:
+                n_after = c["snap"]["sk"].shape[0]
+    if icb < len(tr.cb) or j == 0:
+        check_genuine_pairs(pts, gB, tr.res, "redefined", cfg["maxcor"], eps_sy=None, what="result after the redefinition")
+        check_operator(tr.res, tr.result.hess_inv, stats, what="result after redefinition")
+    if stats is not None:
+        nb = info.get("npairs_before")
+        dropped = (nb + 1 - n_after) if (n_after is not None and j >= 1) else None
+        stats.case(spec, bool(dropped) and dropped >= 1, ["kind=redefinition", f"variant={sw['variant']}", f"dropped={'?' if dropped is None else min(dropped, 3)}"],
+                   sample={"family": rspec["problem"]["obj"]["family"], "switch": {"at": j, "variant": sw["variant"]}, "pairs_before": nb, "pairs_after": n_after})
+
+
 # ------------------------------------------------------------------ (2) operator cases
 def check_pairs_case(spec, stats=None):
     import scipy.optimize as so
@@ -217,11 +274,16 @@ def trace_strategy(draw):
 
 def shard(ctx):
     ctx.hyp("traces", trace_strategy(), check_trace, ctx.pick(3000, 90000))
+    from vf.props.c13 import switch_strategy
+
+    ctx.hyp("redefinitions", switch_strategy(), check_redefinition, ctx.pick(2500, 40000))
     ctx.hyp("operators", pairs_case(), check_pairs_case, ctx.pick(5000, 150000))
 
 
 def replay(spec):
-    if "run" in spec:
+    if "switch" in spec:
+        check_redefinition(spec, None)
+    elif "run" in spec:
         check_trace(spec, None)
     else:
         check_pairs_case(spec, None)
